@@ -158,14 +158,25 @@ func wrapErr(base error, kind string) error {
 
 // failReader delivers the first n bytes of s (in small reads) and then fails.
 type failReader struct {
-	s string
-	n int
-	i int
-	e error
+	s      string
+	n      int
+	i      int
+	e      error
+	once   bool // the failure happens once; a caller that reads again gets the rest
+	failed bool
 }
 
 func (f *failReader) Read(p []byte) (int, error) {
+	if f.once && f.failed {
+		if f.i >= len(f.s) {
+			return 0, io.EOF
+		}
+		k := copy(p, f.s[f.i:])
+		f.i += k
+		return k, nil
+	}
 	if f.i >= f.n {
+		f.failed = true
 		return 0, f.e
 	}
 	k := copy(p, f.s[f.i:f.n])
@@ -434,7 +445,7 @@ func handleReq(rq wproto.Req) (rp wproto.Rep) {
 		}
 		var r io.Reader = strings.NewReader(rq.Doc)
 		if rq.ReadFail != nil && rq.Yield == 0 && rq.CancelAt == nil {
-			r = &failReader{s: rq.Doc, n: *rq.ReadFail, e: wrapErr(errReader, rq.ErrWrap)}
+			r = &failReader{s: rq.Doc, n: *rq.ReadFail, e: wrapErr(errReader, rq.ErrWrap), once: rq.ReadOnce}
 		} else if rq.ReadFail != nil || rq.Yield > 0 || (rq.CancelAt != nil && *rq.CancelAt >= 0) {
 			yr := &yieldReader{s: rq.Doc, failAt: -1, cancelAt: -1, cancel: cancelUser, yield: rq.Yield, e: wrapErr(errReader, rq.ErrWrap)}
 			if rq.ReadFail != nil {
